@@ -50,6 +50,11 @@ Cases ==
     \cup {[kind |-> "sumcomp", a |-> a, b |-> b, s |-> m, fs |-> <<>>,
            exp |-> <<SumSeq([i \in 1..Len(RangeSeq(a, b, 1)) |-> RangeSeq(a, b, 1)[i] * m])>>] :
         a \in Starts, b \in Stops, m \in Mults}
+    \cup {[kind |-> fk, a |-> 0, b |-> 0, s |-> 1, fs |-> <<>>, lit |-> q,
+           exp |-> <<IF fk = "sumlit" THEN SumSeq(q) ELSE Len(q)>>] :
+        fk \in {"sumlit", "lenlit"}, q \in UNION {[1..n -> Mults \cup {0}] : n \in 0..3}}
+    \cup {[kind |-> "lencomp", a |-> a, b |-> b, s |-> m, fs |-> <<>>, exp |-> <<Len(RangeSeq(a, b, 1))>>] :
+        a \in Starts, b \in Stops, m \in Mults}
     \cup {[kind |-> "sumsym", a |-> d, b |-> 0, s |-> 1, fs |-> <<>>,
            exp |-> [i \in 1..Len(SetToSortSeq(Box, <)) |-> SumSeq(RangeSeq(0, SetToSortSeq(Box, <)[i] + d, 1))]] :
         d \in Starts}
